@@ -1949,6 +1949,10 @@ def compile_require(compiler, expr, root, entries):
         readers = readers and readers[0]
 
         prefix, assignments = assignment_shape(module, rest)
+        if prefix:
+            # `_hy_export_macros` only governs `(require module *)`. A
+            # prefixed `require` makes every macro of the module available.
+            assignments = "ALL"
         module_name = module_name_str(module)
         if isinstance(module, Expression) and module[1][0] == Symbol("None"):
             # Prepend leading dots to `module_name`.
@@ -1994,8 +1998,8 @@ def compile_require(compiler, expr, root, entries):
                         String(compiler.module.__name__),
                         Keyword("assignments"),
                         (
-                            String("EXPORTS")
-                            if assignments == "EXPORTS"
+                            String(assignments)
+                            if assignments in ("ALL", "EXPORTS")
                             else List([List([String(k), String(v)]) for k, v in assignments])
                         ),
                         Keyword("prefix"),
